@@ -133,10 +133,7 @@ theorem inv_setGlobal (kw : List String) (st st' : St) (h : Inv st) (name : Stri
       refine inv_of_spaces_eq h rfl ?_
       intro n hn
       simp only at hn
-      have hcn : ∀ x, x ∈ ({ spaces := st.spaces, globals :=
-          if st.globals.contains name = true then st.globals else st.globals ++ [name] } : St).childNames [] ↔
-          x ∈ st.childNames [] := fun x => Iff.rfl
-      rw [hcn]
+      show n ∉ st.childNames []
       split at hn
       · exact h.disj.glob n hn
       · simp only [List.mem_append, List.mem_singleton] at hn
@@ -322,10 +319,10 @@ theorem kindOf_none (st : St) (q : Path) (n : String) (h : st.kindOf q n = none)
   · rename_i h1
     split at h
     · cases h
-    · rename_i h2
+    · rename_i h3
       split at h
       · cases h
-      · rename_i h3
+      · rename_i h2
         simp only [Bool.or_eq_true, List.contains_eq_mem, decide_eq_true_eq, not_or] at h3
         refine ⟨?_, by simpa using h2, ?_, h3.2⟩
         · cases hm : st.mem .cells q n with
@@ -392,9 +389,9 @@ theorem inv_newCells (kw : List String) (st st' : St) (h : Inv st) (p : Path) (n
 /-! ## `setRef` -/
 
 theorem inv_newRef (st st' : St) (h : Inv st) (p : Path) (name : String) (v : Nat) (hp : p ∈ st.ids)
-    (hm : st.mem .refs p name = none) (hkp : st.mem .cells p name = none ∧ name ∉ st.childNames p)
+    (hm : st.mem .refs p name = none)
     (hop : st.newRef p name v = some st') : Inv st' := by
-  unfold St.newRef at hop
+  unfold St.newRef St.newRefOk at hop
   cases hg : st.globals.contains name with
   | true =>
     simp only [hg, if_true] at hop
@@ -403,16 +400,18 @@ theorem inv_newRef (st st' : St) (h : Inv st) (p : Path) (name : String) (v : Na
     · rename_i hcond
       simp only [Option.some.injEq] at hop
       subst hop
-      have hcond' : (st.subs p).all (fun q => (st.mem .cells q name).isNone &&
+      have hcond' : (p :: st.subs p).all (fun q => (st.mem .cells q name).isNone &&
           !(st.childNames q).contains name) = true := by simpa using hcond
       refine inv_newMember st h .refs p name v hp hm ?_
       intro q hq _
-      rcases hq with rfl | hq
-      · exact hkp
-      · have := List.all_eq_true.mp hcond' q hq
-        simp only [Bool.and_eq_true, Option.isNone_iff_eq_none, Bool.not_eq_true',
-          List.contains_eq_mem, decide_eq_false_iff_not] at this
-        exact this
+      have hq' : q ∈ p :: st.subs p := by
+        rcases hq with rfl | hq
+        · simp
+        · exact List.mem_cons_of_mem _ hq
+      have := List.all_eq_true.mp hcond' q hq'
+      simp only [Bool.and_eq_true, Option.isNone_iff_eq_none, Bool.not_eq_true',
+        List.contains_eq_mem, decide_eq_false_iff_not] at this
+      exact this
   | false =>
     simp only [hg, Bool.false_eq_true, if_false] at hop
     split at hop
@@ -424,12 +423,14 @@ theorem inv_newRef (st st' : St) (h : Inv st) (p : Path) (name : String) (v : Na
         simpa using hcond
       refine inv_newMember st h .refs p name v hp hm ?_
       intro q hq _
-      rcases hq with rfl | hq
-      · exact hkp
-      · have := List.all_eq_true.mp hcond' q (List.mem_cons_of_mem _ hq)
-        simp only [Option.isNone_iff_eq_none] at this
-        obtain ⟨h1, h2, _, _⟩ := kindOf_none st q name this
-        exact ⟨h1, h2⟩
+      have hq' : q ∈ p :: st.subs p := by
+        rcases hq with rfl | hq
+        · simp
+        · exact List.mem_cons_of_mem _ hq
+      have := List.all_eq_true.mp hcond' q hq'
+      simp only [Option.isNone_iff_eq_none] at this
+      obtain ⟨h1, h2, _, _⟩ := kindOf_none st q name this
+      exact ⟨h1, h2⟩
 
 theorem inv_setRef (kw : List String) (st st' : St) (h : Inv st) (p : Path) (name : String) (v : Nat)
     (hop : st.setRef kw p name v = some st') : Inv st' := by
@@ -450,19 +451,10 @@ theorem inv_setRef (kw : List String) (st st' : St) (h : Inv st) (p : Path) (nam
       | none =>
         rw [hm] at hop
         simp only at hop
-        have hkp : st.mem .cells p name = none ∧ name ∉ st.childNames p := by
-          unfold St.kindOf at hop
-          cases hc : st.mem .cells p name with
-          | some _ => rw [hc] at hop; simp at hop
-          | none =>
-            refine ⟨rfl, ?_⟩
-            intro hcn
-            rw [hc] at hop
-            simp [hcn] at hop
         split at hop
         · cases hop
         · cases hop
-        · exact inv_newRef st st' h p name v hp hm hkp hop
+        · exact inv_newRef st st' h p name v hp hm hop
 
 /-! ## `delMember`: `del_cells`, `del_ref` -/
 
